@@ -49,8 +49,10 @@ macro_rules! bit_harnesses {
                 assert!(upper == lower << (2 * h));
                 assert!(lower & upper == 0);
                 assert!((lower | upper) == (one << (2 * (k - 1))) - 1);
-                let s = <$t as UInt>::skalo_mask(k);
-                assert!(s == (one << (2 * k)) - 1);
+                let k2: usize = kani::any();
+                kani::assume(k2 >= 1 && k2 <= $wb - 1);
+                let s = <$t as UInt>::skalo_mask(k2);
+                assert!(s == (one << (2 * k2)) - 1);
                 kani::cover!(k == $wb - 1);
             }
 
